@@ -270,6 +270,8 @@ def run(ck, replay=None):
     if "ImplCanvasIsBounding" not in reg.violated:
         raise MachineryError("Superpose model no longer rejects the one-end-per-image bounding box (vacuity guard)")
     darsia = import_darsia()
+    from checks.common import axis_twins
+    ck.cov["twin_object_histories"] = axis_twins(ck, darsia, "C11", ck.tier == "quick")
     rng = random.Random(ck.seed)
     quick = ck.tier == "quick"
     shapes = shapes + [(5, 3), (6, 6), (3, 5)] + ([] if quick else [(rng.randint(1, 8), rng.randint(1, 8)) for _ in range(20)])
